@@ -55,8 +55,13 @@ fn value_to_datetime(
     let parsed = if let Some(value) = value.as_str() {
         parse_string(value)?
     } else if let Ok(value) = f64::try_from(value.clone()) {
-        let timestamp =
-            Timestamp::from_nanosecond((value * 1e9) as i128).map_err(date_out_of_range)?;
+        // check the range here: outside of it `from_nanosecond` runs into a
+        // debug assertion before it gets to return its error
+        let nanos = (value * 1e9) as i128;
+        if !(Timestamp::MIN.as_nanosecond()..=Timestamp::MAX.as_nanosecond()).contains(&nanos) {
+            return Err(Error::new(ErrorKind::InvalidOperation, "date out of range"));
+        }
+        let timestamp = Timestamp::from_nanosecond(nanos).map_err(date_out_of_range)?;
         ParsedDateTime::Zoned(timestamp.to_zoned(TimeZone::UTC))
     } else {
         return Err(Error::new(
